@@ -2,6 +2,7 @@
 #include "phx.h"
 #include <time.h>
 #include <map>
+#include <algorithm>
 
 using namespace photon;
 
@@ -18,13 +19,16 @@ std::vector<int> role;                 // 0 sleeper, 1 photon interrupter
 std::vector<std::vector<Op>> os_scripts;
 int n_ops = 0, n_sleepers = 0, n_pintr = 0, n_ointr = 0;
 // interrupt ledger: per target, errno -> number sent and not yet consumed
-std::vector<std::map<int, int>> pending;
-std::vector<char> shut;               // harness view of the shutdown mark
+struct Intr { int eno; uint64_t seq0, seq1; bool used; };   // seq1 == 0: thread_interrupt() has not returned yet
+std::vector<std::vector<Intr>> pending;
+uint64_t g_seq = 0;
+std::vector<char> shut;               // harness view of the shutdown mark (set before thread_shutdown() is called)
+std::vector<uint64_t> shut_ret_us;    // true time at which thread_shutdown() returned for this target (0 = not yet)
 struct SState { volatile bool in_inf = false; volatile uint64_t since = 0; };
 std::vector<SState> sst;
 volatile int intr_done = 0;
 volatile uint64_t last_activity_ns = 0;
-bool timing_verdicts = false;
+bool timing_verdicts = false, cross_shutdown = false;
 uint64_t slack_us = 0;
 
 // deadlines: equal, near-equal, widely spread, zero, infinite
@@ -54,8 +58,9 @@ void gen_plan() {
     n_sleepers = big ? 8 + sim::rnd(33) : 1 + sim::rnd(8);
     n_pintr = sim::rnd(3); n_ointr = sim::rnd(3) == 0 ? 1 + sim::rnd(2) : 0;
     int nth = n_sleepers + n_pintr;
-    scripts.resize(nth); role.resize(nth); pending.resize(nth); shut.assign(nth, 0); sst.resize(nth);
+    scripts.resize(nth); role.resize(nth); pending.resize(nth); shut.assign(nth, 0); shut_ret_us.assign(nth + 2, 0); sst.resize(nth);
     bool with_shutdown = sim::rnd(3) == 0;
+    cross_shutdown = hx::param("cross_shutdown", 1) && sim::rnd(2);
     for (int t = 0; t < nth; t++) {
         role[t] = t < n_sleepers ? 0 : 1;
         int n = big ? 1 + sim::rnd(4) : 1 + sim::rnd(10);
@@ -82,28 +87,49 @@ void gen_plan() {
     }
 }
 
-void consume(int t, int e, const char* what, int opidx) {
-    // called under NoSched
+struct Fail { int t, e, op; const char* what; uint64_t b, end; };
+std::vector<Fail> fails;
+void consume(int t, int e, const char* what, int opidx, uint64_t call_seq) {
+    // called under NoSched; matched against the interrupts after the run (match_interrupts)
     if (e == EPERM && shut[t]) { sim::probe("shutdown_eperm"); return; }
-    auto it = pending[t].find(e);
-    if (it == pending[t].end() || it->second <= 0)
-        HX_VIOL("phantom-interrupt", "%s of th%d (op %d) failed with errno %d but no unconsumed interrupt with that errno was ever sent to it", what, t, opidx, e);
-    it->second--;
-    sim::probe("interrupt_delivered");
+    fails.push_back({t, e, opidx, what, call_seq, ++g_seq});
+}
+// A failed call must be matched by a distinct interrupt with that errno which was still in flight or arrived
+// after the call began: an interrupt that found its target RUNNING (outside any blocking call) is dropped by
+// design and must not surface in a later, unrelated sleep. Failures of one thread are disjoint in time, so
+// earliest-deadline-first over the interrupts decides whether a valid assignment exists.
+void match_interrupts() {
+    for (auto& f : fails) {     // already in time order per thread
+        Intr* best = nullptr; Intr* stale = nullptr;
+        for (auto& i : pending[f.t]) {
+            if (i.used || i.eno != f.e) continue;
+            uint64_t s1 = i.seq1 ? i.seq1 : ~0ULL;
+            if (s1 >= f.b && i.seq0 <= f.end) { if (!best || s1 < (best->seq1 ? best->seq1 : ~0ULL)) best = &i; }
+            else if (s1 < f.b) stale = &i;
+        }
+        if (best) { best->used = true; sim::probe("interrupt_delivered"); continue; }
+        if (stale)
+            HX_VIOL("stale-interrupt", "%s of th%d (op %d, began at seq %llu) failed with errno %d, but the only unconsumed interrupt with that errno had completed at seq %llu, before the call began: it was delivered to a later, unrelated call",
+                    f.what, f.t, f.op, (unsigned long long)f.b, f.e, (unsigned long long)stale->seq1);
+        HX_VIOL("phantom-interrupt", "%s of th%d (op %d) failed with errno %d but no unconsumed interrupt with that errno was sent to it", f.what, f.t, f.op, f.e);
+    }
 }
 
 void send_interrupt(int from, int target, int eno, int opidx) {
     phx::ThreadRec& tg = W.threads[target];
     if (!tg.th || !tg.started || tg.done) return;
-    { sim::NoSched ns; pending[target][eno]++; last_activity_ns = sim::now_ns(); sim::ev(0x1277, target, eno); sim::note("th%d op%d interrupt th%d errno %d", from, opidx, target, eno); }
+    size_t k;
+    { sim::NoSched ns; pending[target].push_back({eno, ++g_seq, 0, false}); k = pending[target].size() - 1; last_activity_ns = sim::now_ns(); sim::ev(0x1277, target, eno);
+      sim::note("th%d op%d interrupt th%d errno %d (seq %llu)", from, opidx, target, eno, (unsigned long long)g_seq); }
     thread_interrupt(tg.th, eno);
+    { sim::NoSched ns; pending[target][k].seq1 = ++g_seq; }
 }
 
 void do_sleep(int t, const Op& o) {
     phx::ThreadRec& me = W.threads[t];
-    uint64_t before = photon::now, tbefore = true_now_us(), pert0 = sim::perturbed_ns();
+    uint64_t before = photon::now, tbefore = true_now_us(), pert0 = sim::perturbed_ns(), call_seq;
     bool was_shut;
-    { sim::NoSched ns; was_shut = shut[t]; sst[t].in_inf = o.inf; sst[t].since = sim::now_ns(); sim::ev(0x5104, t, o.idx);
+    { sim::NoSched ns; call_seq = ++g_seq; was_shut = shut[t]; sst[t].in_inf = o.inf; sst[t].since = sim::now_ns(); sim::ev(0x5104, t, o.idx);
       sim::note("th%d op%d usleep(%s%llu) now=%llu", t, o.idx, o.inf ? "inf " : "", (unsigned long long)o.us, (unsigned long long)before); }
     int r;
     if (hx::param("dumpq", 0)) dump_sleepq("before-sleep");
@@ -114,9 +140,13 @@ void do_sleep(int t, const Op& o) {
     sim::NoSched ns;
     sst[t].in_inf = false; last_activity_ns = sim::now_ns();
     sim::note("th%d op%d usleep -> %d errno %d now=%llu true=%llu", t, o.idx, r, r ? en : 0, (unsigned long long)after, (unsigned long long)tafter);
-    // (e) a thread marked by thread_shutdown() never blocks for more than 10 ms, whatever the call returns
-    if (was_shut && timing_verdicts && sim::perturbed_ns() == pert0 && tafter > tbefore + 10000 + slack_us)
-        HX_VIOL("shutdown", "th%d under thread_shutdown() stayed in thread_usleep for %llu us (> 10 ms, op %d)", t, (unsigned long long)(tafter - tbefore), o.idx);
+    // (e) once thread_shutdown() has returned for it, a thread never stays blocked for more than 10 ms, whatever the call returns
+    if (shut_ret_us[t] && timing_verdicts && sim::perturbed_ns() == pert0) {
+        uint64_t from = std::max(tbefore, (uint64_t)shut_ret_us[t]);
+        if (tafter > from + 10000 + slack_us)
+            HX_VIOL("shutdown", "th%d stayed in thread_usleep(%s%llu) for %llu us after thread_shutdown() had returned for it (> 10 ms, op %d)", t, o.inf ? "inf " : "",
+                    (unsigned long long)o.us, (unsigned long long)(tafter - from), o.idx);
+    }
     if (r == 0) {
         if (o.inf) HX_VIOL("early-return", "thread_usleep(-1) of th%d returned 0 (op %d)", t, o.idx);
         // (a) at least t elapsed on the runtime clock
@@ -130,7 +160,7 @@ void do_sleep(int t, const Op& o) {
     } else {
         sim::probe("nontrivial");
         if (r != -1) HX_VIOL("result", "thread_usleep returned %d", r);
-        consume(t, en, "thread_usleep", o.idx);
+        consume(t, en, "thread_usleep", o.idx, call_seq);
     }
 }
 
@@ -142,8 +172,9 @@ void run_script(int t) {
         case OP_SLEEP: do_sleep(t, o); break;
         case OP_YIELD: {
             phx::Where w(me, "yield", o.idx);
+            uint64_t call_seq; { sim::NoSched ns; call_seq = ++g_seq; }
             int e = thread_yield();
-            if (e) { sim::NoSched ns; sim::note("th%d op%d yield -> %d", t, o.idx, e); consume(t, e, "thread_yield", o.idx); sim::probe("yield_interrupted"); }
+            if (e) { sim::NoSched ns; sim::note("th%d op%d yield -> %d", t, o.idx, e); consume(t, e, "thread_yield", o.idx, call_seq); sim::probe("yield_interrupted"); }
             break; }
         case OP_INTR: {
             phx::Where w(me, "intr", o.idx);
@@ -154,11 +185,12 @@ void run_script(int t) {
             int target = o.target < 0 ? t : o.target;
             phx::ThreadRec& tg = W.threads[target];
             if (o.pause_us) thread_usleep(o.pause_us);
-            // only from the target's own vCPU: the mark is not synchronised across vCPUs
-            if (!tg.th || !tg.started || tg.done || tg.vcpu != me.vcpu) break;
+            if (!tg.th || !tg.started || tg.done) break;
+            if (tg.vcpu != me.vcpu && !cross_shutdown) break;
             { sim::NoSched ns; shut[target] = 1; sim::ev(0x5D0, target); sim::note("th%d op%d thread_shutdown(th%d)", t, o.idx, target); last_activity_ns = sim::now_ns(); }
             thread_shutdown(tg.th, true);
-            sim::probe("shutdown_marked");
+            { sim::NoSched ns; if (!shut_ret_us[target]) shut_ret_us[target] = true_now_us(); }
+            sim::probe(tg.vcpu != me.vcpu ? "shutdown_marked_cross_vcpu" : "shutdown_marked");
             break; }
         }
     }
@@ -220,5 +252,6 @@ void harness_run(uint64_t seed) {
     });
     W.run();
     for (auto& t : os) t.join();
+    match_interrupts();
     sim::finish("ok", "", "sleep vcpus=%d sleepers=%d", W.nvcpu, n_sleepers);
 }
